@@ -28,7 +28,7 @@ SimStep ==
         ELSE IF k <= 12 THEN DiscoveryFails(e, f, FB)
         ELSE IF k <= 15 \/ ~WithConcurrency THEN Remove(e)
         ELSE IF k <= 16 THEN (IF L1 # L2 /\ RandomElement({TRUE, FALSE}) THEN Swap(e, L1, L2) ELSE Burst(e, L1, L2))
-        ELSE IF k <= 17 THEN Chase(e, L1, B)
+        ELSE IF k <= 17 THEN (IF RandomElement({TRUE, FALSE}) THEN Chase(e, L1, B) ELSE Race(e, L1))
         ELSE IF Cardinality(D) >= 2 THEN Par([x \in D |-> T[x]])
         ELSE Remove(e)
 
